@@ -121,6 +121,22 @@ func (vc *VC) libCall(fr *frame, n *Node, x *ssa.Call, callee *ssa.Function, arg
 		vc.havocMods(n, ms)
 		vc.bindResult(n, x, sig, nil)
 		return true
+	case "strconv.FormatInt", "strconv.FormatUint":
+		// deterministic and injective in the number for a fixed base (digits never contain separators)
+		trust(full + ": deterministic, injective in its numeric argument for a fixed base")
+		fn := e.declFmtNum(full, args[0].Typ)
+		vc.defVal(n, x, fmt.Sprintf("(%s %s %s)", fn, args[0].T, args[1].T))
+		return true
+	case "strings.Join":
+		// Join(parts, sep): a function of the sequence of parts; injective on sequences whose parts
+		// do not contain the separator (assumption, true for the numeric parts it is used on here)
+		trust("strings.Join: function of the part sequence, injective on it (parts assumed free of the separator)")
+		e.declJoin()
+		arr := vc.decl("join.parts", "(Array Int Str)")
+		elem := args[0].Typ.Underlying().(*types.Slice).Elem()
+		vc.emit(fmt.Sprintf("(assert (forall ((j Int)) (! (=> (and (<= 0 j) (< j %s)) (= (select %s j) %s)) :pattern ((select %s j)))))", sLen(args[0].T), arr, vc.load(st, e.elemPtr(args[0].T, "j"), elem), arr))
+		vc.defVal(n, x, fmt.Sprintf("(strjoin %s %s %s)", arr, sLen(args[0].T), args[1].T))
+		return true
 	case "fmt.Sprint":
 		// single-argument Sprint: a deterministic function of the (boxed) value; injectivity is a listed assumption
 		if tl := sLen(args[0].T); tl == "1" {
@@ -221,4 +237,23 @@ func sanitize(s string) string {
 		}
 	}
 	return sb.String()
+}
+
+// declFmtNum declares the model of strconv.FormatInt / FormatUint.
+func (e *Encoder) declFmtNum(full string, argT types.Type) string {
+	fn := "fmtnum." + sanitize(full)
+	srt := e.sortOf(argT)
+	e.addPre(fn, fmt.Sprintf("(declare-fun %s (%s Int) Str)", fn, srt))
+	e.addPre(fn+".inv", fmt.Sprintf("(declare-fun %s.inv (Str) %s)", fn, srt))
+	e.addPre(fn+".ax", fmt.Sprintf("(assert (forall ((x %s) (b Int)) (! (and (= (%s.inv (%s x b)) x) (> (strlen (%s x b)) 0)) :pattern ((%s x b)))))", srt, fn, fn, fn, fn))
+	return fn
+}
+
+// declJoin declares the model of strings.Join.
+func (e *Encoder) declJoin() {
+	e.addPre("strjoin", "(declare-fun strjoin ((Array Int Str) Int Str) Str)")
+	e.addPre("strjoin.len", "(declare-fun strjoin.len (Str) Int)")
+	e.addPre("strjoin.part", "(declare-fun strjoin.part (Str Int) Str)")
+	e.addPre("strjoin.ax", "(assert (forall ((a (Array Int Str)) (n Int) (s Str)) (! (=> (>= n 0) (= (strjoin.len (strjoin a n s)) n)) :pattern ((strjoin a n s)))))\n"+
+		"(assert (forall ((a (Array Int Str)) (n Int) (s Str) (j Int)) (! (=> (and (<= 0 j) (< j n)) (= (strjoin.part (strjoin a n s) j) (select a j))) :pattern ((strjoin.part (strjoin a n s) j)))))")
 }
